@@ -88,6 +88,24 @@ type BuiltInFunctionReturnBundle = (
     Option<Box<dyn RuntimeExecutionBridgeNotifier>>,
 );
 
+/// Truncate a float towards zero into an integer type.
+///
+/// # Errors
+/// `NaN`, the infinities and values outside of the target's range have no integer
+/// representation: `as` would silently turn them into `0` or the type's limit.
+fn float_to_integer<T: TryFrom<i128>>(float: f64, target: &str) -> Result<T> {
+    // 2^127, the first magnitude an i128 cannot hold.
+    const I128_LIMIT: f64 = 170141183460469231731687303715884105728.0;
+
+    if !float.is_finite() || float.abs() >= I128_LIMIT {
+        bail!("`{float}` cannot be made into a {target}")
+    }
+
+    T::try_from(float as i128)
+        .ok()
+        .with_context(|| format!("`{float}` cannot be made into a {target}"))
+}
+
 impl BuiltInFunction {
     pub fn run(&self, ctx: &mut Ctx) -> Result<BuiltInFunctionReturnBundle> {
         let mut arguments = ctx.ref_clear_local_operating_stack();
@@ -869,11 +887,7 @@ impl BuiltInFunction {
                             .with_context(|| format!("`{i128}` cannot be made into a int"))?,
                     ),
                     Primitive::Byte(u8) => Primitive::Int(*u8 as i32),
-                    Primitive::Float(f64) => Primitive::Int(
-                        (*f64 as i64)
-                            .try_into()
-                            .with_context(|| format!("`{f64}` cannot be made into a int"))?,
-                    ),
+                    Primitive::Float(f64) => Primitive::Int(float_to_integer(*f64, "int")?),
                     bad => unreachable!("{bad}"),
                 };
 
@@ -888,7 +902,7 @@ impl BuiltInFunction {
                     Primitive::Int(i32) => Primitive::BigInt(*i32 as i128),
                     Primitive::BigInt(i128) => Primitive::BigInt(*i128),
                     Primitive::Byte(u8) => Primitive::BigInt(*u8 as i128),
-                    Primitive::Float(f64) => Primitive::BigInt((*f64 as i64).into()),
+                    Primitive::Float(f64) => Primitive::BigInt(float_to_integer(*f64, "bigint")?),
                     bad => unreachable!("{bad}"),
                 };
 
@@ -909,11 +923,7 @@ impl BuiltInFunction {
                             .with_context(|| format!("`{i128}` cannot be made into a byte"))?,
                     ),
                     Primitive::Byte(u8) => Primitive::Byte(*u8),
-                    Primitive::Float(f64) => Primitive::Byte(
-                        (*f64 as i64)
-                            .try_into()
-                            .with_context(|| format!("`{f64}` cannot be made into a byte"))?,
-                    ),
+                    Primitive::Float(f64) => Primitive::Byte(float_to_integer(*f64, "byte")?),
                     bad => unreachable!("{bad}"),
                 };
 
